@@ -22,7 +22,7 @@ import (
 //   swap-operands : `a == b` / `a != b` comparisons are mirrored (b == a), `a < b` becomes `b > a`, etc.
 func refactorTree(dir, kind string) error {
 	normaliseCmp = false
-	p, err := Load(dir, false)
+	p, err := Load(dir, true) // from source: nothing of the scratch copy is compiled into the build cache
 	if err != nil {
 		return err
 	}
